@@ -567,7 +567,7 @@ impl Check for C02 {
     }
     fn run_shard(&self, ctx: &Ctx, rec: &mut Rec) {
         let total = match ctx.tier {
-            Tier::Quick => 3000,
+            Tier::Quick => 9000,
             Tier::Thorough => 40000,
         };
         prop_loop(ctx, rec, "gen", strategy(), ctx.share(total), judge);
